@@ -586,6 +586,16 @@ fn c05(cx: &Ctx, o: &mut Outcome) {
             continue;
         }
         if !sc_conn.strict_delivery() {
+            // a request sent in two pieces (a client waiting for "100 Continue"): whatever the server writes
+            // on that connection - interim and final responses - arrives whole however the transport takes it
+            if let Some(t) = sc_conn.twin {
+                if sc_conn.client == ClientMode::Normal && sc_conn.faults.only_cuts() && t < r.conns.len() && cx.sc.conns[t].request == sc_conn.request && cx.sc.conns[t].delivery == sc_conn.delivery && cx.sc.conns[t].faults.is_clean() && !r.conns[t].outbound.is_empty() {
+                    o.evaluated = true;
+                    if normalise_echo(&r.conns[t].outbound) != normalise_echo(&c.outbound) {
+                        o.verdicts.push(v("C05", "short_write.two_piece_request.stream_differs", format!("request {:?} sent in {} pieces: with the transport taking the answer in pieces ({:?}) the peer received {} bytes {:?}, otherwise {} bytes", escape_trunc(&sc_conn.request.0, 80), sc_conn.delivery.len(), sc_conn.faults.cuts, c.outbound.len(), escape_trunc(&c.outbound, 40), r.conns[t].outbound.len()), Some(i)));
+                    }
+                }
+            }
             continue;
         }
         if c.outbound.is_empty() {
